@@ -334,9 +334,10 @@ where
         ["clone"] => {
             // both forms of `Clone`: `clone()`, then `clone_from` over a decoder in another state
             let copy = d.clone();
-            d.clone_from(&copy);
             let mut other = d.clone();
-            let _ = other.seek((0, other.pos().1));
+            if let Some(&(p, st)) = snaps.first() {
+                let _ = other.seek((p, st));
+            }
             other.clone_from(&copy);
             *d = other;
             "ok".into()
